@@ -25,11 +25,20 @@ type verifSource struct {
 	byMAC  []string
 }
 
-func (s verifSource) Name() string                          { return "verif" }
-func (s verifSource) Visit(func(string, []string))          {}
-func (s verifSource) LookupAddr(addr string) []string       { return s.byAddr }
-func (s verifSource) LookupHost(name string) []string       { return nil }
-func (s verifSource) LookupMAC(mac string) []string         { return s.byMAC }
+func (s verifSource) Name() string                    { return "verif" }
+func (s verifSource) Visit(func(string, []string))    {}
+func (s verifSource) LookupAddr(addr string) []string { return s.byAddr }
+func (s verifSource) LookupHost(name string) []string { return nil }
+func (s verifSource) LookupMAC(mac string) []string   { return s.byMAC }
+
+// a source whose answers the probe changes between queries of one daemon lifetime
+type verifVarSource struct{ cur *verifSource }
+
+func (s verifVarSource) Name() string                    { return "verif" }
+func (s verifVarSource) Visit(func(string, []string))    {}
+func (s verifVarSource) LookupAddr(addr string) []string { return s.cur.byAddr }
+func (s verifVarSource) LookupHost(name string) []string { return nil }
+func (s verifVarSource) LookupMAC(mac string) []string   { return s.cur.byMAC }
 
 func verifUnhex(s string) []byte {
 	if s == "-" {
@@ -69,6 +78,37 @@ func init() {
 		switch f[0] {
 		case "sid":
 			fmt.Println(verifHex(shortID(string(verifUnhex(f[1])), verifUnhex(f[2]))))
+		case "cis":
+			// cis <profile specs> (<peerip>;<machex|->;<names by addr>;<names by mac>)+   one daemon lifetime, several clients
+			var conf config.Profiles
+			for _, sp := range verifList(f[1]) {
+				_ = conf.Set(sp)
+			}
+			p := &proxySvc{resolver: &resolver.DNS{}}
+			src := verifVarSource{cur: &verifSource{}}
+			setupClientReporting(p, &conf, discovery.Resolver{src})
+			var outs []string
+			for _, qs := range f[2:] {
+				t := strings.Split(qs, ";")
+				if len(t) != 4 {
+					continue
+				}
+				src.cur.byAddr, src.cur.byMAC = verifList(t[2]), verifList(t[3])
+				q := query.Query{PeerIP: net.ParseIP(t[0]), LocalIP: net.IP{127, 0, 0, 1}}
+				if t[1] != "-" {
+					q.MAC = net.HardwareAddr(verifUnhex(t[1]))
+				}
+				ci := p.resolver.DOH.ClientInfo(q)
+				// the id a fresh computation gives for the same profile and device
+				dev := []byte(q.PeerIP)
+				if q.MAC != nil {
+					dev = q.MAC
+				}
+				prof := conf.Get(q.PeerIP, q.LocalIP, q.MAC)
+				outs = append(outs, strings.Join([]string{verifHex(ci.ID), verifHex(ci.IP), verifHex(ci.Model), verifHex(ci.Name),
+					verifHex(prof), verifHex(shortID(prof, dev))}, "/"))
+			}
+			fmt.Println(strings.Join(outs, " "))
 		case "ci":
 			// ci <profile> <peerip text> <machex|-> <names by addr> <names by mac>
 			var conf config.Profiles
